@@ -149,6 +149,8 @@ def gen(t, tier):
             sc['coverage'] = [0.24, 0.24, 0.26, 0.26] if t.chance(0.5) else [0.49, 0.49, 0.51, 0.51]
         if t.chance(0.35):
             sc['coverage'] = None       # whole extent: the per-level fast paths of every backend on a deep pyramid
+    if has_ts and t.chance(0.3):
+        sc['pre_task'] = {'levels': sorted(set(t.choice(nlev) for _ in range(2)))}
     sc['tz'] = t.pick(C.TIMEZONES)
     sc['mtime_res'] = t.pick([None, None, None, 1.0, 2.0])      # granularity of the file system's time stamps
     return sc
@@ -170,7 +172,7 @@ def shrink(sc):
                 yield c
         size //= 2
     for key, simple in (('coverage', None), ('cov_srs', '3857'), ('meta_size', [1, 1]), ('salt', None), ('after', 0.0),
-                        ('cache_refresh', None)):
+                        ('cache_refresh', None), ('pre_task', None)):
         if sc.get(key, simple) != simple:
             c = copy.deepcopy(sc)
             c[key] = simple
@@ -417,6 +419,15 @@ def _run(sc, tape):
                     return [math.degrees(x / 6378137.0), math.degrees(2 * math.atan(math.exp(y / 6378137.0)) - math.pi / 2)]
                 seed_conf['coverages'] = {'cov': {'bbox': ll(cov[0], cov[1]) + ll(cov[2], cov[3]), 'srs': 'EPSG:4326'}}
             cconf['coverages'] = ['cov']
+        if sc.get('pre_task') and tm.cache.supports_timestamp and times_of:
+            # an earlier cleanup task of the same run on the same cache (tasks of one run share the tile manager): it
+            # removes nothing - everything is newer than its remove_before - but it has been there
+            pre = {'caches': ['c1'], 'grids': ['g'], 'levels': sc['pre_task']['levels'],
+                   'remove_before': {'time': _iso(min(times_of.values()) - 5000.0)}}
+            if 'coverages' in cconf:
+                pre['coverages'] = list(cconf['coverages'])
+            seed_conf['cleanups'] = {'a_first': pre, 'cl': cconf}
+            probes['two_tasks_in_one_run'] = 1
         t_conf0 = clock.now
         sconf = SeedingConfiguration(seed_conf, mapproxy_conf=pc)
         tasks = sconf.cleanups()
